@@ -396,7 +396,7 @@ func (e *Engine) VerifyProps(props []string, only map[string]bool, opts runOpts,
 		}
 	}
 	// second chance, unloaded: an obligation left open by a solver timeout while 16
-	// queries ran side by side is retried alone with every solver and 4x the time
+	// queries ran side by side is retried alone, all solvers racing, with twice the time
 	// (a proof that only fails under load would otherwise be a false alarm)
 	retried, open := 0, 0
 	for _, o := range rep.Obligations {
@@ -411,14 +411,14 @@ func (e *Engine) VerifyProps(props []string, only map[string]bool, opts runOpts,
 		if opts.knownObls[o.Name] {
 			continue // a recorded finding: expected to fail
 		}
-		if o.Cover || o.Query == "" || retried >= 8 {
+		if o.Cover || o.Query == "" || retried >= 4 {
 			continue
 		}
 		if !(o.Verdict == "undecided" || (o.Verdict == "failed" && o.Candidate)) {
 			continue
 		}
 		retried++
-		full, fall := solve(prelude+o.Query, 4*opts.timeoutMs, "all")
+		full, fall := solveRace(prelude+o.Query, 2*opts.timeoutMs)
 		o.All = append(o.All, fall...)
 		rep.SolverSecs += full.Secs
 		if full.Verdict == "unsat" {
